@@ -18,6 +18,15 @@ def workload(g, tier):
     wl = [("soup", soup.gen(g)) for _ in range(nsoup)]
     wl += [("valid", xform.respell(xgen.gen(g), g, g.pick(["bare", "mixed"])).render()) for _ in range(nvalid)]
     wl += [("faulty", it.render()) for it in multi_fault_items(g, nfault, 1, 5)]
+    # the witness of every listed finding is executed explicitly on every run (DESIGN §2.5)
+    import json, os
+    for f in common.load_findings():
+        if f.state == "open" and f.prop == "C16" and f.witness:
+            try:
+                w = json.load(open(os.path.join(common.VERIF, f.witness)))
+                wl.append(("finding_witness", w["witness"]["input"]))
+            except (OSError, KeyError, ValueError):
+                pass
     from vlib.faults import INJECTORS, POSITIONS
     from checks import c14
     for _ in range(nvalid // 3):
@@ -49,7 +58,7 @@ def run(tier):
                 key = [st, kind, psig(o) if st == "panic" else o.get("msg", "")[:40]]
             ck.cell(key)
             if st == "panic":
-                ck.violation(psig(o) + "|" + kind, dict(input=src, backend=backend, workload=cls, panic=common.brief(o)))
+                ck.violation(psig(o), dict(input=src, backend=backend, workload=cls, panic=common.brief(o)))
             elif st == "abort":
                 ck.violation(f"abort|rc={o.get('rc')}", dict(input=src, backend=backend, workload=cls, outcome=o))
             elif st not in ("ok", "err", "input_unparsable"):
